@@ -209,6 +209,25 @@ fn witness_docs() -> Vec<(&'static str, Vec<u8>)> {
     ]
 }
 
+/// deterministic regression witnesses cut out of generated documents (added on main with fix 28a4efa)
+fn generated_witnesses() -> Vec<(String, Vec<u8>)> {
+    let mut out = vec![];
+    // 28a4efa: sampled function with a reversed /Domain interval (f32::clamp panicked with min > max)
+    for case in 0..400u64 {
+        let mut rng = Rng::derive(7, "c01.witness.domain", case);
+        let d = docgen::gen_document(&mut rng);
+        let pat = b"/FunctionType 0 /Domain [0 1 ";
+        if let Some(i) = d.bytes.windows(pat.len()).position(|w| w == pat) {
+            let mut b = d.bytes.clone();
+            b[i + pat.len() - 4] = b'1';
+            b[i + pat.len() - 2] = b'0';
+            out.push(("sampled-function-reversed-domain".to_string(), b));
+            if out.len() >= 3 { break; }
+        }
+    }
+    out
+}
+
 /// `corpus::normalise` runs the real library in this process: under a watchdog, so that a reader that hangs
 /// is reported instead of hanging the check (`None`: no answer within 30 s; the thread is abandoned)
 fn normalise_guarded(bytes: &[u8]) -> Option<Option<Vec<u8>>> {
@@ -227,6 +246,12 @@ fn build_cases(seed: u64, thorough: bool) -> (Vec<Case>, Vec<String>, Vec<PrepFa
     let mut notes = vec![];
     let mut prep = vec![];
     let mut normalise_hung = false;
+    for (name, bytes) in generated_witnesses() {
+        for c in 0..4 {
+            let (t, ca) = cfg(c);
+            cases.push(Case { family: "witness", desc: name.clone(), doc: Doc { bytes: bytes.clone(), tolerant: t, cached: ca } });
+        }
+    }
     for (desc, bytes) in witness_docs() {
         for c in [0u64, 3] {
             let (t, ca) = cfg(c);
